@@ -92,3 +92,14 @@ def obligations(tier):
     from vf.props import packing
     obs += packing.obligations_for('C04.c', tier)
     return obs
+
+
+MANIFEST = {
+    'text': 'Bounded symbolic model checking of the real allocation code: for each skeleton history of real public-API calls and each '
+            'namespace configuration, z3 decides for ALL file lengths in the stated interval that every on-disc object reported by the real '
+            'objects after force_consistency is pairwise disjoint, inside the declared volume size, and that the declared size is reached exactly. '
+            'Right level because the defect class is integer accounting (two computations of one layout) whose failing inputs are rare lengths.',
+    'note': 'Trusted: CrossHair symbolic interpreter, z3, constant clock/random stubs, length-only file data. Bounded by the skeleton family, '
+            'configuration list and length interval stated per obligation; histories outside the family are not claimed.',
+    'technique': 'symbolic execution of real pycdlib code (CrossHair) + z3 over symbolic file lengths; reachability twins; concrete replay',
+}
